@@ -51,7 +51,7 @@ def flint(n):
 
 def convert_units(val, unit_in, unit_out):
     conc = {'M': 1, 'mM': 1e-3, 'uM': 1e-6, 'nM': 1e-9, 'pM': 1e-12}
-    time = {'days': 86400, 'hours': 3600, 'min': 60,
+    time = {'days': 86400, 'hours': 3600, 'h': 3600, 'min': 60, 'm': 60,
             's': 1, 'ms': 1e-3, 'us': 1e-6, 'ns': 1e-9}
     if unit_in in conc:
         return flint(val*conc[unit_in]/conc[unit_out])
